@@ -80,22 +80,29 @@ class HTTPProxyConnectionPool(ConnectionPool):
 
         _logger.debug('Request for proxy connection.')
 
-        if connection.closed():
-            _logger.debug('Connecting to proxy.')
-            yield from connection.connect()
+        try:
+            if connection.closed():
+                _logger.debug('Connecting to proxy.')
+                yield from connection.connect()
 
-            if tunnel:
-                yield from self._establish_tunnel(connection, (host, port))
+                if tunnel:
+                    yield from self._establish_tunnel(connection, (host, port))
 
-            if use_ssl:
-                ssl_connection = yield from connection.start_tls(self._ssl_context)
-                ssl_connection.proxied = True
-                ssl_connection.tunneled = True
+                if use_ssl:
+                    ssl_connection = yield from connection.start_tls(self._ssl_context)
+                    ssl_connection.proxied = True
+                    ssl_connection.tunneled = True
 
-                self._connection_map[ssl_connection] = connection
-                connection.wrapped_connection = ssl_connection
+                    self._connection_map[ssl_connection] = connection
+                    connection.wrapped_connection = ssl_connection
 
-                return ssl_connection
+                    return ssl_connection
+        except BaseException:
+            # Connecting, tunnelling or TLS failed (or was cancelled): the
+            # connection must not stay checked out.
+            connection.close()
+            super().no_wait_release(connection)
+            raise
 
         if connection.wrapped_connection:
             ssl_connection = connection.wrapped_connection
